@@ -259,6 +259,17 @@ func init() {
 	intrinsics["google.golang.org/protobuf/proto.Unmarshal"] = func(e *Engine, fn *ssa.Function, a []Value) Value {
 		return e.protoUnmarshal(a[0], a[1])
 	}
+	// proto.Clone: a deep copy of the message (reflection-free)
+	intrinsics["google.golang.org/protobuf/proto.Clone"] = func(e *Engine, fn *ssa.Function, a []Value) Value {
+		iv, ok := a[0].(Iface)
+		if !ok || iv.T == nil {
+			return Iface{}
+		}
+		if p, isPtr := iv.V.(Ptr); isPtr && p.IsNil() {
+			return iv
+		}
+		return Iface{T: iv.T, V: e.snapshot(iv.V, iv.T, 0)}
+	}
 	intrinsics["(google.golang.org/protobuf/proto.MarshalOptions).Marshal"] = func(e *Engine, fn *ssa.Function, a []Value) Value {
 		return e.protoMarshal(a[1])
 	}
